@@ -459,6 +459,33 @@ func genPrinter(c *ctx, s *schema) {
 		}
 	}
 	c.side["printer_helpers"] = helperText
+	// … and pinned, together with the Printer type: state added to the printer (a cache, a visited set) changes
+	// what printing the same node twice does, which no per-kind table shows
+	{
+		var hk []string
+		for h := range helperText {
+			hk = append(hk, h)
+		}
+		sort.Strings(hk)
+		var hb strings.Builder
+		for _, h := range hk {
+			hb.WriteString(h + " " + helperText[h] + "\n")
+		}
+		for _, d := range f.Decls {
+			if gd, ok := d.(*ast.GenDecl); ok && gd.Tok == token.TYPE {
+				for _, sp := range gd.Specs {
+					if ts, ok := sp.(*ast.TypeSpec); ok {
+						var buf strings.Builder
+						printExpr(&buf, ts.Type)
+						hb.WriteString("type " + ts.Name.Name + " " + buf.String() + "\n")
+					}
+				}
+			}
+		}
+		if sum := fmt.Sprintf("%x", sha1.Sum([]byte(hb.String()))); sum != printerHelpersPin {
+			c.fail(comp, f.Pos(), "the printer's type or helpers (hand-modelled in Model/Printer.lean, Model/Render.lean) changed: sha1 %s, modelled %s", sum, printerHelpersPin)
+		}
+	}
 
 	var b strings.Builder
 	b.WriteString("-- GENERATED by gofacts from pkg/visitor/printer/printer.go. Do not edit.\n")
@@ -650,6 +677,7 @@ type dop struct {
 }
 
 const dumperHelpersPin = "9ab318c2c843bebac202b69c59119b808cbae864"
+const printerHelpersPin = "ebeb8404f9e040eb5d60cfb34b47820692e2265d"
 
 func genDumper(c *ctx, s *schema) {
 	const comp = "dumper"
